@@ -17,9 +17,10 @@
    Code variables keep their names: queryRows -> qr (rowsIdx is the index of a key in qr),
    used, rowsCount -> cnt, hasMore -> more.
 
-   Storage contract (what the loadPoints stub of the driver delivers, and what cache2.Get
-   delivers in production): one group per time slot of the LOD (possibly empty), rows of a
-   group sorted by tags in the requested direction, every key at most once per query.       *)
+   Storage contract (what cache2.Get delivers in production and the loadPoints stub of the
+   driver imitates): one group per time slot of the LOD (possibly empty), every key at most once
+   per query, rows of a group in the order the query asks for - the stub reads the ORDER BY
+   clause of the real buildSeriesQuery, so the order is bound to the code, see StorageSortsAll. *)
 EXTENDS TableRelation, TLC, Json
 
 CONSTANTS Keys,     \* keys the storage may hold
@@ -28,6 +29,10 @@ CONSTANTS Keys,     \* keys the storage may hold
           Limits,   \* set of numResults
           Markers,  \* set of markers besides NoMarker
           Export,   \* TRUE: print every finished case for the conformance driver
+          StorageSortsAll, \* TRUE as coded now: the query orders every sort key in the requested
+                    \* direction.  FALSE = writeOrderBy before the fix 367010a4 ("ORDER BY _time,
+                    \* tag1,stag1 DESC": only the last key descending), i.e. the rows of a time slot
+                    \* always come in ascending tag order (TableAssembly_bad_order.cfg: FinalFirst fails)
           CallerReverses \* FALSE as coded now.  TRUE = handleGetTable before the fix 2cf30576: it
                     \* reversed the LOD list for fromEnd although getTableFromLODs walks the list
                     \* from the end itself (TableAssembly_bad_caller.cfg: FinalFirst fails)
@@ -76,7 +81,8 @@ ToTime   == IF ToTime0 = 0 THEN Inf ELSE ToTime0
 
 \* what the storage returns for handler-what q and a LOD: one group per time slot
 StorageOutput(q, lod) ==
-    [s \in 1..(lod[2] - lod[1]) |-> SortKeys({k \in inp.st[q] : k[1] = lod[1] + s - 1}, inp.desc)]
+    [s \in 1..(lod[2] - lod[1]) |-> SortKeys({k \in inp.st[q] : k[1] = lod[1] + s - 1},
+                                              inp.desc /\ StorageSortsAll)]
 
 -------------------------------------------------------------------------------
 (* handler.go lessThan(l RowMarker, r tsSelectRow, skey, orEq, fromEnd): time, then the
